@@ -6,4 +6,4 @@ def run(ctx):
     pairingtrace.run_traces(ctx)
     # toy curve with embedding degree 12 (p = 1747, r = 241): TLC computes the Miller loop and the final
     # exponentiation itself; the bls12_381 / optimized_bls12_381 pairing code must return the same coefficients
-    toypairing.toy_pairing(ctx)
+    toypairing.toy_pairing(ctx, loops=False)
